@@ -11,6 +11,10 @@ import (
 
 type Mutex struct{ s verifrt.MutexState }
 
+// State exposes the scheduler-visible state (for verifrt.Await in harnesses).
+func (m *Mutex) State() *verifrt.MutexState   { return &m.s }
+func (m *RWMutex) State() *verifrt.MutexState { return &m.s }
+
 func (m *Mutex) Lock()   { verifrt.Lock(&m.s) }
 func (m *Mutex) Unlock() { verifrt.Unlock(&m.s) }
 func (m *Mutex) TryLock() bool {
